@@ -125,7 +125,7 @@ static std::string handle(std::string const& op, std::vector<std::string> const&
   }
   if (op == "reqops" || op == "respops")
   {
-    // builder operations: C:<hex> (constructor header string, first) S:<hex> I:<id>:<hex> F:<hex>:<hex> L:<n> V H
+    // builder operations: C:<hex> (constructor header string, first) S:<hex> I:<id>:<hex> F:<hex>:<hex> L:<n> V H Q (is_valid() asked in between)
     bool is_req = op == "reqops";
     auto ops = hu::split(a[is_req ? 4 : 2], ';');
     std::string h0;
@@ -147,6 +147,7 @@ static std::string handle(std::string const& op, std::vector<std::string> const&
       else if (p[0] == "L") { size_t n = static_cast<size_t>(std::stoull(p[1])); if (is_req) rq.add_content_length_header(n); else rs.add_content_length_header(n); }
       else if (p[0] == "V") { if (!is_req) rs.add_server_header(); }
       else if (p[0] == "H") { if (!is_req) rs.add_content_http_header(); }
+      else if (p[0] == "Q") { if (!is_req) (void)rs.is_valid(); }    // ask in between (result unused)
     }
     size_t n = static_cast<size_t>(std::stoull(a[is_req ? 5 : 3]));
     if (is_req) return hu::hex(rq.message(n));
